@@ -18,7 +18,8 @@ func newLimitedReader(r io.Reader, limit int64) *limitedReader {
 
 func (l *limitedReader) Read(p []byte) (n int, err error) {
 	n, err = l.r.Read(p)
-	if int64(n) > l.limit {
+	// A limit of 0 means that there is no limit (`DisableMaxBufferSize`).
+	if l.limit > 0 && int64(n) > l.limit {
 		err = ErrLimitReached
 	}
 	return
